@@ -75,6 +75,9 @@ def run(chk):
             if x.get('k') == 'Field' and ('Interp1D<' in x['e']['ty'] or 'Interp2D<' in x['e']['ty']):
                 chk.ob('R20.2', "%s reads field `%s` of the interpolator directly" % (path.split(' as ')[0], x['name']), False, line_of(x),
                        'field-%s-%s' % (path.split(' as ')[0], x['name']))
+    # the bracket index is a function of the ORDER of the axis values only: comparison skeleton of the lookup (shared with C11)
+    from . import c11
+    c11.analyse(chk, lib, set_text=False)
     chk.explanation = ("The extracted lane expressions of Linear and Bilinear mention only the bracketing axis values and data rows "
                        "and the query; all other reads are first/last axis values inside range comparisons, and the strategies reach the "
                        "interpolator only through the bracket accessors. A non-bracketing sample can therefore influence the result only "
